@@ -747,7 +747,9 @@ def production_jit_stage(c):
 
   def score(x, seed=None):
     del seed
-    return jnp.sum(x.continuous.padded_array, axis=(-1, -2)) + 0.1 * jnp.sum(x.categorical.padded_array, axis=(-1, -2))
+    a = jnp.asarray(x.continuous.padded_array, dtype=jnp.float32)
+    b = jnp.asarray(x.categorical.padded_array, dtype=jnp.float32)
+    return a.reshape(a.shape[0], -1).sum(-1) + 0.1 * b.reshape(b.shape[0], -1).sum(-1)      # one reward per candidate
   for pair in ([[5, 2], [2, 5]], [[4, 4, 3], [2, 2, 3]]):
     for ar in pair:
       problem = vz.ProblemStatement(metric_information=[vz.MetricInformation(name='obj', goal=vz.ObjectiveMetricGoal.MAXIMIZE)])
